@@ -1761,7 +1761,14 @@ func (b *RaftBackend) applyLog(ctx context.Context, command *LogData) error {
 	} else {
 		lowestActiveIndex = b.fsm.fastTxnTracker.lowestActiveIndex()
 	}
-	lowestActiveIndex = min(b.raft.AppliedIndex(), lowestActiveIndex) // we need to cap the lowest active index, otherwise we might miss transaction started concurrently
+	// We need to cap the lowest active index, otherwise we might miss
+	// transactions started concurrently. A transaction starts at the index
+	// the FSM has applied (see newTransaction), which can be behind
+	// raft.AppliedIndex() while entries are queued for the FSM; capping with
+	// the latter would let this entry clear tracker records that a
+	// transaction started in the meantime still depends on.
+	latestApplied, _ := b.fsm.LatestState()
+	lowestActiveIndex = min(latestApplied.Index, lowestActiveIndex)
 	command.LowestActiveIndex = new(lowestActiveIndex)
 
 	isTx := len(command.Operations) > 0 && command.Operations[0].OpType == beginTxOp
